@@ -261,6 +261,7 @@ def job_chunks(_):
             def cb(k, xs, ys, out, alphas, betas, args=None):
                 for q in range(int(k)):
                     seen[int(xs[q])] += 1
+                    out[0] = out[0] + (int(xs[q]) + 1)        # the integrand: point number + 1 (weight 1)
             for method in ('trapz2d', 'simps2d'):
                 seen[:] = 0
                 M.ns['trapz2d_points'] = pts if method == 'trapz2d' else None
@@ -274,6 +275,9 @@ def job_chunks(_):
                 n += 1
                 if npts and not (seen[:npts] == 1).all():
                     bad.append((npts, cores, method, 'coverage counts %s' % seen[:npts].tolist()))
+                elif npts and abs(float(out[0]) - npts * (npts + 1) / 2.) > 1e-9:
+                    # ... and the contributions of all points arrive in the caller's result (chunk sums and the remainder)
+                    bad.append((npts, cores, method, 'result %r for the sum %r of the contributions' % (float(out[0]), npts * (npts + 1) / 2.)))
     return {'runs': n, 'bad': bad[:10]}
 
 
